@@ -476,17 +476,115 @@ def run_conc(devs, budgets, request="delall"):
     return res
 
 
+def run_alarm_event(devs, budgets, op="set"):
+    """An event whose trigger is a change of a variable in its report: the collection event of an alarm change carries the status variable
+    AlarmsSet (SVID 1005).  set_alarm / clear_alarm (application thread) trigger the event, the report is built on the library's sender thread;
+    under every schedule the one S6F11 must show the alarm in its new state ("current values of their variables")."""
+    box = {}
+    ce = 100025 if op == "set" else 200025
+
+    def driver(s):
+        import secsgem.gem  # noqa: PLC0415
+
+        s.frozen = True
+        s.line_points = False
+        hx = Harness(s)
+        if not hx.ok:
+            box["harness"] = "could not establish communication"
+            return
+        ep, h = hx.ep, hx.h
+        h.alarms[25] = secsgem.gem.Alarm(25, "alarm25", "text25", 0x01, 100025, 200025)  # disabled: no S5F1 exchange in the way
+        h.collection_events[100025] = secsgem.gem.CollectionEvent(100025, "alarm25 set", [])
+        h.collection_events[200025] = secsgem.gem.CollectionEvent(200025, "alarm25 cleared", [])
+        if op == "clear":
+            h.set_alarm(25)
+            s.settle()
+            ep.auto_reply(ep.pump())
+        for function, body in ((33, s2f33([(5, [1005])])), (35, s2f35([(ce, [5])])), (37, s2f37(True, [ce]))):
+            mine, _ = hx.request(function, body)
+            if len(mine) != 1 or mine[0]["body"][-1:] != b"\x00":
+                box["harness"] = f"set-up request S2F{function} not accepted: {[e37.brief(f) for f in mine]}"
+                return
+        done = {}
+
+        def alarm_op():
+            (h.set_alarm if op == "set" else h.clear_alarm)(25)
+            done["ok"] = True
+
+        s.frozen = False
+        s.line_points = True
+        t = vrt.Thread(target=alarm_op, name="alarm-op")
+        t.start()
+        frames = []
+        for _ in range(6):
+            s.settle()
+            new = ep.pump()
+            frames += new
+            if not ep.auto_reply(new):
+                break
+        s.line_points = False
+        s.frozen = True
+        box["done"] = bool(done)
+        box["s6f11"] = [f["body"] for f in frames if f["stype"] == 0 and (f["stream"], f["function"]) == (6, 11)]
+        h.disable()
+
+    sched = vrt.run(driver, devs, budgets, max_steps=500000, max_time=1e6, line_points=True)
+    res = {"trace": sched.trace, "v": []}
+    case = {"part": "alarm-event", "op": op}
+    if sched.harness_failure or sched.driver_exception or box.get("harness"):
+        res["harness"] = (sched.harness_failure or sched.driver_exception or box.get("harness"))[-1200:]
+        res["obs"] = None
+        return res
+    if sched.outcome != "done":
+        res["v"].append((f"C12|alarm-event|execution-{sched.outcome}|{op}", {"case": case, "info": sched.deadlock_info}))
+        res["obs"] = sched.outcome
+        return res
+    res["obs"] = {"s6f11": [b.hex() for b in box["s6f11"]], "done": box["done"]}
+    if not box["done"]:
+        res["v"].append((f"C12|alarm-event|call-did-not-return|{op}", {"case": case}))
+    if len(box["s6f11"]) != 1:
+        res["v"].append((f"C12|alarm-event|S6F11-count={len(box['s6f11'])}|{op}", {"case": case}))
+        return res
+    got = Harness.parse_report(box["s6f11"][0])
+    want_ids = [25] if op == "set" else []
+    ok = got is not None and got["ceid"] == ce and len(got["reports"]) == 1 and got["reports"][0][0] == 5 and len(got["reports"][0][1]) == 1
+    if ok:
+        code, val = got["reports"][0][1][0]
+        try:
+            ids = [x[1][0] for x in val] if code == "L" else None
+        except Exception:  # noqa: BLE001
+            ids = None
+        if ids != want_ids:
+            res["v"].append((f"C12|alarm-event|report-shows-the-alarm-list-before-the-change|{op}", {"case": case, "got": repr(got), "want": want_ids}))
+    else:
+        res["v"].append((f"C12|alarm-event|S6F11-malformed|{op}", {"case": case, "got": repr(got)}))
+    return res
+
+
+ALARM_REGION = [
+    "secsgem.gem.alarm_capability:AlarmCapability.set_alarm",
+    "secsgem.gem.alarm_capability:AlarmCapability.clear_alarm",
+    "secsgem.gem.alarm_capability:AlarmCapability._get_alarms_set",
+]
+
+
 def run(ctx):
     # S part first (line tracing before any pool is forked)
     from checks import hsms_harness as hh  # noqa: PLC0415
     from mc import explore  # noqa: PLC0415
 
-    missing = hh.trace_region(REGION)
+    missing = hh.trace_region(REGION + ALARM_REGION)
     if missing:
         ctx.note(f"not line-traced (not found): {missing}")
     k = 3 if ctx.thorough else 2
     cparts = []
     ctrans = 0
+    for op in ("set", "clear"):
+        st = explore.explore(ctx, run_alarm_event, {"sched": k}, f"c12-alarm-event-{op}", opts={"op": op}, chunk=8)
+        cparts.append({"alarm_event": op, "executions": st["executions"], "outcomes": st["distinct_outcomes"], "levels_completed": st["levels_completed"]})
+        ctrans += st["executions"]
+        if st["levels_completed"] < k:
+            ctx.exhaustive = False
     for request in CONC:
         st = explore.explore(ctx, run_conc, {"sched": k}, f"c12-conc-{request}", opts={"request": request}, chunk=8)
         cparts.append({"request": request, "executions": st["executions"], "outcomes": st["distinct_outcomes"], "levels_completed": st["levels_completed"]})
@@ -520,6 +618,17 @@ def run(ctx):
 
 def replay(ctx, detail):
     case = detail["case"]
+    if case.get("part") == "alarm-event":
+        from checks import hsms_harness as hh  # noqa: PLC0415
+
+        hh.trace_region(REGION + ALARM_REGION)
+        devs = {int(k): v for k, v in case.get("devs", {}).items()}
+        r = run_alarm_event(devs, case.get("budgets", {}), op=case["op"])
+        ctx.evaluations += 1
+        print("replayed:", r.get("obs"))
+        for sig, d in r["v"]:
+            ctx.violation(sig, d)
+        return
     if case.get("part") == "conc":
         from checks import hsms_harness as hh  # noqa: PLC0415
 
